@@ -89,7 +89,7 @@ EXTRA = [
     ["close_rx_pipe", 4], ["close_rx_pipe", 6], ["close_rx_pipe", -1], ["close_rx_pipe", 5],
     ["open_tx_pipe", T5], ["open_tx_pipe", B3], ["open_tx_pipe", C5],
     ["start_carrier_wave"], ["stop_carrier_wave"], ["exit"], ["enter"],
-    ["print_details", False], ["print_details", True], ["print_pipes"],
+    ["print_details", False], ["print_details", True], ["print_pipes"], ["exit_exc"],
     # argument types outside the documented forms: rejected with ValueError, nothing changes
     ["auto_ack", None], ["auto_ack", "yes"], ["dynamic_payloads", None], ["dynamic_payloads", "on"],
     ["payload_length", None], ["payload_length", "8"],
